@@ -8,6 +8,7 @@ import GormModel.Lemmas.Callbacks
 import GormModel.Lemmas.CallbacksReach
 import GormModel.Lemmas.CallbacksPost
 import GormModel.Lemmas.CallbacksTable
+import GormModel.Lemmas.CallbacksFuel
 import GormModel.Gen.Pipelines
 namespace Gorm
 open Gen
@@ -101,6 +102,62 @@ example : ((Proc.run {} [.register "a" "" "" true 0, .register "b" "" "" true 1,
     .remove "a", .replace "b" "" "" 7]).1.apply (.register "y" "" "x" true 3)).1.fns = [2, 7, 3] := by
   decide
 
+/-- PLACED CALLBACKS NEVER MOVE: whatever one `sortCallback` call does (recursion, rewrites, error or not),
+    the old order is a subsequence of the new one -- names are only ever inserted, never moved or dropped.
+    (`WF`: `names` is the name column of the table, as set up by `sortCallbacks`.) -/
+theorem C17_placed_never_move (names : List String) (fuel i : Nat) (st : SortSt)
+    (hw : WF names st) (hi : i < st.cs.size) :
+    st.sorted.Sublist (sortCallback names fuel i st).1.sorted :=
+  reach_sub (sortCallback_reach names fuel i st hw hi)
+
+/-- a successful `sortCallback` call places the visited callback, and every `after` field it rewrote
+    (the back-links `cs[idx].after = c.name`) names a callback that is placed when it returns -/
+theorem C17_visit_places (names : List String) (fuel i : Nat) (st : SortSt)
+    (hw : WF names st) (hi : i < st.cs.size) (hok : (sortCallback names fuel i st).2 = none) :
+    (st.cs[i]!).name ∈ (sortCallback names fuel i st).1.sorted ∧
+    ∀ j : Nat, ((sortCallback names fuel i st).1.cs[j]!).after = (st.cs[j]!).after ∨
+         ((sortCallback names fuel i st).1.cs[j]!).after ∈ (sortCallback names fuel i st).1.sorted :=
+  sortCallback_post names fuel i st hw hi hok
+
+/-- The negation of F12's pattern, as a predicate over the history: the requested precedences
+    ("`After(a).Register(n)`: a before n", "`Before(b).Register(n)`: n before b") among names that are
+    registered somewhere in the history are ACYCLIC -- witnessed by a rank function. (A self reference or
+    an After/Before cycle admits no such rank.) -/
+def AcyclicRequests (h : List RegOp) : Prop :=
+  ∃ rank : String → Nat, ∀ op ∈ h,
+    (op.toCb.after ≠ "" → (∃ o ∈ h, o.toCb.name = op.toCb.after) → rank op.toCb.after < rank op.toCb.name) ∧
+    (op.toCb.before ≠ "" → (∃ o ∈ h, o.toCb.name = op.toCb.before) → rank op.toCb.name < rank op.toCb.before)
+
+/-- FUEL ADEQUACY, table level, with the explicit bound: for EVERY table whose stored requests are respected
+    by some rank function, the main loop with any fuel >= n + 2 (n = number of records) never reports
+    "out of fuel" -- the recursion depth of `sortCallback` is at most n + 1. (`sortFuel n = 4n + 8`.) -/
+theorem C17_fuel_bound (cs : List Cb) (rank : String → Nat) (fuel : Nat) (hf : cs.length + 2 ≤ fuel)
+    (hr : RKlist (· ∈ cs.map (·.name)) rank cs) :
+    (sortLoop (cs.map (·.name)) fuel cs.length 0 { cs := cs.toArray, sorted := [] }).2 ≠ some .fuel :=
+  sortLoop_nofuel (cs.map (·.name)) (· ∈ cs.map (·.name)) rank (fun _ h => h) fuel cs.length 0 _
+    (by simpa using hf) (wf_init cs) (rk_init _ rank cs hr) (by simp)
+
+/-- FUEL ADEQUACY / TERMINATION for ALL histories outside F12's pattern: if the requests of a history are
+    acyclic, NO call of the history runs out of fuel (so the model's verdict "out of fuel", which the
+    differential suite equates with "the Go process dies of unbounded recursion", can only arise from a
+    self/cyclic reference). -/
+theorem C17_fuel_adequate (h : List RegOp) (hac : AcyclicRequests h) :
+    ∀ e ∈ (Proc.run {} h).2, e ≠ some SortErr.fuel := by
+  obtain ⟨rank, hr⟩ := hac
+  apply run_nofuel (fun s => ∃ o ∈ h, o.toCb.name = s) rank h
+  · intro op hop
+    refine ⟨⟨op, hop, rfl⟩, ?_⟩
+    intro c hc
+    simp at hc; subst hc
+    exact hr op hop
+  · exact ⟨fun c hc => (nomatch hc), fun c hc => (nomatch hc)⟩
+  · intro e he; cases he
+
+/-- non-vacuity: a history with Before and After requests (incl. a forward reference) is acyclic -/
+example : AcyclicRequests [.register "a" "" "" true 0, .register "x" "a" "y" true 1, .register "y" "" "" true 2] := by
+  refine ⟨fun s => if s = "y" then 0 else if s = "x" then 1 else 2, ?_⟩
+  decide
+
 /-- FINDING F12 (counterexample, kernel-checked): a callback that names itself never finishes sorting:
     the model runs out of fuel (the Go code overflows the stack instead of returning an error). -/
 theorem C17_selfref_counterexample :
@@ -123,6 +180,16 @@ theorem C17_replace_star_ignored_counterexample :
 theorem C17_before_overwrites_after_counterexample :
     (Proc.run {} [.register "u2" "u1" "" true 0, .register "u1" "" "u3" true 1, .register "u3" "" "" true 2]).1.fns
       = [0, 1, 2] := by
+  decide
+
+/-- FINDING F17 (counterexample; found while proving, replayed on the real API): a SECOND `Before(b)`
+    overwrites the back-link the first one left on `b` (`cs[idx].after = c.name`), so only the last requester
+    is checked when `b` is placed: `c` was registered Before("b") but runs after it, no error, although
+    {cl < x, c < b, cl < b, b < z} is satisfiable. -/
+theorem C17_second_before_overwrites_backlink_counterexample :
+    let r := Proc.run {} [.register "x" "" "cl" true 0, .register "z" "" "" true 1, .register "c" "b" "" true 2,
+      .register "cl" "b" "" true 3, .register "b" "z" "" true 4]
+    r.2 = [none, none, none, none, none] ∧ r.1.order = ["cl", "x", "b", "z", "c"] := by
   decide
 
 /-- positive instance (non-vacuity of the model): Before/After requests that gorm does honour -/
